@@ -37,7 +37,9 @@ def consts(backend, D, *, nfd=2, nev=3, masks=(1, 2, 3, 4, 5, 6, 7), ets=(0, 1),
         masks = [m for m in masks if m < 4]
     if not backend.startswith("epoll"):
         ets = (0,)
-    return {"Backend": backend, "NFd": nfd, "NEv": nev, "Masks": set(masks), "ETs": set(ets), "Keeper": set(keeper), "Kinds": list(kinds or ["sp"] * nfd),
+    return {"Backend": backend, "NFd": nfd, "NEv": nev, "Masks": set(masks), "ETs": set(ets), "Keeper": set(keeper),
+            "K1": (list(kinds or []) + ["sp"] * 3)[0], "K2": (list(kinds or []) + ["sp"] * 3)[1],
+            "K3": (list(kinds or []) + ["sp"] * 3)[2],
             "Acts": set(acts), "D": D, "AvoidKnown": avoid}
 
 
@@ -84,7 +86,7 @@ FDMAPS = ([21, 70, 33], [150, 22, 64], [63, 65, 300])
 def drv_cfg(c, *, mode="snap", sigfd=0, fdmap=0, kinds=None):
     n = c["NFd"]
     return {"backend": c["Backend"], "sigfd": sigfd, "mode": mode, "fdnum": FDMAPS[fdmap % len(FDMAPS)][:n],
-            "kind": list(kinds or c["Kinds"]), "keeper": sorted(c["Keeper"])}
+            "kind": list(kinds or [c["K1"], c["K2"], c["K3"]][:n]), "keeper": sorted(c["Keeper"])}
 
 
 def build_driver():
